@@ -203,7 +203,7 @@ def state_oracle(orc, ref, lines, outs, cengine, bases, desc):
     ns = ref.nstate
     last_size = {}
     dumps = {}
-    rp = {"model": desc[:3000], "how": "feed the lines to harness/py/c44_mjx.py (env of checks/c43_mjxgen.mjx_env)"}
+    rp = {"model": desc, "how": "feed the lines to harness/py/c44_mjx.py (env of checks/c43_mjxgen.mjx_env)"}
     prev_dump = {}
     pending_set = None
     c_checked = 0
@@ -428,7 +428,7 @@ def _run(ctx, tmp, procs):
 
     orc = Oracle(ctx)
     directed_cases(ctx, orc, hx)
-    nmodels = 3 if quick else 10
+    nmodels = 3 if quick else 7
     all_lines, all_model, all_impl = [], [], []
     hist = {}
     c_checked = 0
@@ -442,7 +442,10 @@ def _run(ctx, tmp, procs):
             over = {"nbody": (2, 5), "mocap": 0.6, "equalities": 0.7, "actuators": (1, 3), "free": 0.5,
                     "actuator_kinds": ("motor", "position", "intvelocity", "cylinder", "muscle", "general")}
             pre = ["spec nuserdata %d" % rng.choice((0, 2, 5))]
-        mdl = G.make_model(rng, over, pre)
+        for _ in range(20):
+            mdl = G.make_model(rng, over, pre)
+            if mdl.nv > 0:      # mjx.kinematics/forward raise on a model without degrees of freedom (a C43 finding, not a C44 matter)
+                break
         csz = ceng.model(mdl.lines)
         if csz is None or isinstance(csz, tuple):
             ctx.oblige("tree build compiles generated model %d" % mi, "environment", False, str(csz))
@@ -497,6 +500,13 @@ def _run(ctx, tmp, procs):
         ctx.oblige("correspondence mjx.state_size/get_state/set_state (real, tree) vs Lean model on the generated table (%d ops)" % len(all_lines),
                    "correspondence", not bad, json.dumps(bad[:5]))
         ctx.disagreements += [dict(b, stream="mjx-state") for b in bad[:50]]
+    ctx.extra["putget_comparison"] = (
+        "every field of mjx.Data / mjx.DataJAX that MjData also has is compared EXACTLY (x64 copies) after get_data(put_data(d)), d from "
+        "mj_forward / mj_step of the wheel on a random state; representation changes are compared through a canonical form: contacts as a "
+        "multiset of (geoms, dim, dist, pos, frame, includemargin, friction, solref, solreffriction, solimp); constraint rows as a multiset of "
+        "(type, dense J row, pos, margin, frictionloss, D, aref, force); actuator_moment and ten_J densified through the sparsity pattern their "
+        "consumers use; solver_niter: first entry only (documented: MJX has no islands). Not compared: qLD, qLDiagInv (get_data recomputes them "
+        "with mj_factorM by design), efc_J sparsity arrays, arena bookkeeping, timers, warnings.")
     ctx.extra["oracle_checked"] = orc.n
     ctx.extra["oracle_failures"] = orc.nfail
     ctx.extra["oracle_failure_keys"] = orc.keys
@@ -530,19 +540,40 @@ def directed_cases(ctx, orc, hx):
                  "make_data initialises contact.dist to 0 for every potential contact, put_data(fresh MjData) pads with 1e10: "
                  "get_data(make_data(m)).ncon = %d, get_data(put_data(m, MjData(m))).ncon = %d"
                  % (b["get_data_of_make_data_ncon"], b["get_data_of_put_data_fresh_ncon"]), {"xml": b["xml"], "result": b})
+    t = r["tendon-zero-entry"]
+    orc.n += 1
+    if t["ten_J_orig"] != t["ten_J_roundtrip"]:
+        orc.fail("c44:putget:ten_J",
+                 "a fixed tendon with coefficients (0, 1): read through the model's sparsity pattern, ten_J is %s before and %s after put_data/get_data "
+                 "(get_data compresses the dense Jacobian with mju_dense2sparse, which drops the numerically zero first entry, and writes the values "
+                 "into MjData.ten_J while the pattern ten_J_rownnz/rowadr/colind lives in the model and is not changed)" % (t["ten_J_orig"], t["ten_J_roundtrip"]),
+                 {"xml": t["xml"], "result": t})
+
+
+def ask_json(orc, hx, l, rp, timeout=None):
+    """an oracle op of the harness: None when the process died; False when the real code raised (reported)"""
+    o = hx.ask(l, timeout=timeout)
+    if o is None:
+        orc.fail("c44:harness-died", "MJX harness died / hung on " + l, dict(rp, line=l))
+        return None
+    if not o.startswith("{"):
+        orc.fail("c44:op-raised:" + l.split()[0] + (":" + l.split()[2] if l.startswith("jitvmap") else ""),
+                 "the real MJX code raised while serving the op '%s' (see the harness's stderr): %s" % (l, o[:100]), dict(rp, line=l))
+        return False
+    return json.loads(o)
 
 
 def extra_ops(ctx, orc, hx, mi, kind, desc, quick):
     ev = ctx.extra.setdefault("transfer_and_tracing", [])
-    rp = {"model": desc[:3000], "how": "model line + the op line to harness/py/c44_mjx.py"}
+    rp = {"model": desc, "how": "model line + the op line to harness/py/c44_mjx.py"}
     seeds = [ctx.rng.randrange(1, 10 ** 6) for _ in range(2 if quick else 6)]
     for i, sd in enumerate(seeds):
         l = "putget %d %d" % (sd, (0, 3)[i % 2])
-        o = hx.ask(l)
-        if o is None:
-            orc.fail("c44:harness-died", "MJX harness died on " + l, dict(rp, line=l))
+        r = ask_json(orc, hx, l, rp)
+        if r is None:
             return
-        r = json.loads(o)
+        if r is False:
+            continue
         orc.n += r.get("checked", 0)
         ev.append({"model": mi, "op": l, "ncon": r.get("ncon"), "nefc": r.get("nefc"), "fields_checked": r.get("checked"), "differing": r.get("fields")})
         if "raised" in r:
@@ -569,11 +600,11 @@ def extra_ops(ctx, orc, hx, mi, kind, desc, quick):
             orc.fail(key, what, dict(rp, line=l, detail=r["fields"]))
     if mi == 0 or not quick:
         l = "makedata"
-        o = hx.ask(l)
-        if o is None:
-            orc.fail("c44:harness-died", "MJX harness died on " + l, dict(rp, line=l))
+        r = ask_json(orc, hx, l, rp)
+        if r is None:
             return
-        r = json.loads(o)
+        if r is False:
+            r = {"fields": {}}
         orc.n += r.get("checked", 0)
         notes = {k: v for k, v in r["fields"].items() if isinstance(v, str) and v.startswith("dtype")}
         real = {k: v for k, v in r["fields"].items() if k not in notes}
@@ -592,18 +623,18 @@ def extra_ops(ctx, orc, hx, mi, kind, desc, quick):
     # jit / vmap / eager
     jobs = [("state", "vmap+eager"), ("kinematics", "vmap+eager" if (mi == 0 or not quick) else "vmap")]
     if mi == 0 or not quick:
-        jobs.append(("forward", "vmap" if quick else "vmap+eager"))
+        jobs.append(("forward", "vmap" if (quick or mi > 1) else "vmap+eager"))
     if mi == 2 or not quick:
-        jobs.append(("step_nocon", "vmap" if quick else "vmap+eager"))
+        jobs.append(("step_nocon", "vmap" if (quick or mi > 1) else "vmap+eager"))
     if not quick:
         jobs.append(("step", "vmap"))
     for fn, mode in jobs:
         l = "jitvmap %d %s %s" % (ctx.rng.randrange(1, 10 ** 6), fn, mode)
-        o = hx.ask(l, timeout=1500)
-        if o is None:
-            orc.fail("c44:harness-died", "MJX harness died / hung on " + l, dict(rp, line=l))
+        r = ask_json(orc, hx, l, rp, timeout=1500)
+        if r is None:
             return
-        r = json.loads(o)
+        if r is False:
+            continue
         ev.append(dict(r, model=mi))
         for k in ("jit_vmap_vs_jit_per_sample", "vmap_vs_jit_per_sample", "eager_vs_jit"):
             if k not in r:
